@@ -11,6 +11,7 @@ from . import core
 QUICK_FILES = ['test/testfiles_for_unittests/sample_exe64.elf', 'test/testfiles_for_unittests/dwarfv5_basic.elf',
                'test/testfiles_for_unittests/lib_versioned64.so.1.elf', 'test/testfiles_for_unittests/simple_gcc.elf.arm',
                'test/testfiles_for_unittests/aarch64_be_gnu_hash.so.elf', 'test/testfiles_for_unittests/dwarf_llpair.elf',
+               'test/testfiles_for_unittests/compressed_64.o',
                'test/testfiles_for_readelf/dwarf_test_versions_mix.elf', 'test/testfiles_for_readelf/dwarf_v5ops.so.elf']
 # large files that the quick tier uses only for the list generators (v5 location/range lists need a pure DWARF5 producer)
 LISTS_ONLY_QUICK = {'test/testfiles_for_readelf/dwarf_v5ops.so.elf'}
@@ -20,7 +21,7 @@ MORE_FILES = ['test/testfiles_for_unittests/simple_gcc.elf.riscv', 'test/testfil
               'test/testfiles_for_unittests/aranges_partial.elf',
               'test/testfiles_for_unittests/lib_relro.so.elf', 'test/testfiles_for_unittests/trailing_null_dies.elf']
 
-QUICK_QUERIES = ('section_by_name', 'symbol_by_name', 'dyn_tag', 'die_at', 'parent', 'children', 'line_program', 'eh_cfi', 'decoded',
+QUICK_QUERIES = ('section_data', 'string_at', 'section_by_name', 'symbol_by_name', 'dyn_tag', 'die_at', 'parent', 'children', 'line_program', 'eh_cfi', 'decoded',
                  'loc_of_die', 'ranges_of_die', 'versions', 'hash_lookup', 'attributes', 'ehabi', 'aranges')
 CAP = 40          # items compared per generator
 
@@ -87,6 +88,7 @@ class World:
         self.ef = ELFFile(self.stream)
         self._di = None
         self.cat = catalogue
+        self.handles = {}          # objects obtained once and kept across later calls (as real clients do)
 
     @property
     def di(self):
@@ -124,6 +126,10 @@ def catalogue(data):
     cat['symnames'] = {}
     for i in cat['symtabs']:
         cat['symnames'][i] = [secs[i].get_symbol(k).name for k in range(min(secs[i].num_symbols(), 40))] + ['no_such_symbol']
+    # sections whose data path is worth asking for: compressed first, then no-bits, string tables, the rest
+    order = sorted(range(len(secs)), key=lambda i: (not secs[i].compressed, secs[i]['sh_type'] != 'SHT_NOBITS',
+                                                    secs[i]['sh_type'] != 'SHT_STRTAB', i))
+    cat['datasecs'] = order[:36]
     cat['dyn'] = [i for i, s in enumerate(secs) if type(s).__name__ == 'DynamicSection']
     cat['notes'] = [i for i, s in enumerate(secs) if type(s).__name__ == 'NoteSection']
     cat['relocs'] = [i for i, s in enumerate(secs) if type(s).__name__ in ('RelocationSection', 'RelrRelocationSection')]
@@ -190,6 +196,25 @@ def _answer(w, name, a, b):
         return _sec(ef.get_section((a * 6 + b) % cat['nsec'])) if cat['nsec'] else None
     if name == 'section_index':
         return ef.get_section_index(_pick(cat['secnames'], a * 6 + b))
+    if name in ('section_data', 'string_at'):
+        if not cat['nsec']:
+            return None
+        idx = cat['datasecs'][(a * 6 + b) % len(cat['datasecs'])]
+        if ('sec', idx) not in w.handles:
+            w.handles[('sec', idx)] = ef.get_section(idx)
+        sec = w.handles[('sec', idx)]                                        # a long-lived section object
+        if name == 'string_at':
+            return sec.get_string(b) if hasattr(sec, 'get_string') else None
+        d = sec.data()
+        return (len(d), bytes(d[:48]), bytes(d[-16:]), sec.data_size, bool(sec.compressed))
+    if name == 'segment_data':
+        if not cat['nseg']:
+            return None
+        if ('seg', (a * 6 + b) % cat['nseg']) not in w.handles:
+            w.handles[('seg', (a * 6 + b) % cat['nseg'])] = ef.get_segment((a * 6 + b) % cat['nseg'])
+        seg = w.handles[('seg', (a * 6 + b) % cat['nseg'])]
+        d = seg.data()
+        return (len(d), bytes(d[:32]))
     if name == 'num_segments':
         return ef.num_segments()
     if name == 'get_segment':
@@ -422,22 +447,77 @@ def _take(it, k):
         return ('exc', type(ex).__name__)
 
 
+class _Ledger:
+    """What one file's replay reports back to the parent process (a stand-in for core.Run inside a worker)."""
+
+    def __init__(self, tier):
+        self.tier = tier
+        self.mism = []
+        self.validated = 0
+        self.counts = []
+        self.notes = []
+        self.samples = []
+        self.nviol = 0
+
+    def mismatch(self, clause, tag, case, exp, obs):
+        self.nviol += 1
+        if len(self.mism) < 40:
+            self.mism.append((clause, tag, case, exp, obs))
+
+    def count(self, key, nontrivial=True):
+        self.counts.append(key)
+
+
+def _file_job(args):
+    rel, fi, nfiles, tier, hists_path, pats_path = args
+    core.use_repo()
+    led = _Ledger(tier)
+    hists = list(core.Run.cases(hists_path))
+    patterns = list(core.Run.cases(pats_path))
+    steps = _replay_file(led, rel, fi, nfiles, hists, patterns)
+    return rel, led.mism, led.validated, led.counts, led.notes, led.samples, steps, led.nviol
+
+
 def histories(run):
     nsim = 60 if run.tier == 'quick' else 600
     res = run.tlc('Api', 'Api_sim', simulate=nsim, depth=121, workers=1)
-    hists = list(run.cases(res.out))
-    if len(hists) < nsim // 2:
-        raise core.MachineryError('Api simulation produced only %d histories' % len(hists))
+    nh = sum(1 for _ in run.cases(res.out))
+    if nh < nsim // 2:
+        raise core.MachineryError('Api simulation produced only %d histories' % nh)
     pres = run.tlc('Api', 'Api_patterns', workers=2)
-    patterns = list(run.cases(pres.out))
-    run.extra['api_patterns'] = len(patterns)
+    run.extra['api_patterns'] = sum(1 for _ in run.cases(pres.out))
     files = QUICK_FILES if run.tier == 'quick' else QUICK_FILES + MORE_FILES
+    from multiprocessing import Pool
+    jobs = [(rel, fi, len(files), run.tier, res.out, pres.out) for fi, rel in enumerate(files)]
+    # the largest file first
+    jobs.sort(key=lambda j: -os.path.getsize(os.path.join(core.REPO, j[0])) if os.path.exists(os.path.join(core.REPO, j[0])) else 0)
+    with Pool(min(8, core.NPROC)) as pool:
+        results = pool.map(_file_job, jobs, chunksize=1)
     steps = 0
-    for fi, rel in enumerate(files):
+    for rel, mism, validated, counts, notes, samples, st, nviol in results:
+        for clause, tag, case, exp, obs in mism:
+            run.mismatch(clause, tag, case, exp, obs)
+        run.nviol += max(0, nviol - len(mism))
+        run.validated += validated
+        for k in counts:
+            run.count(k, nontrivial=True)
+        run.notes += notes
+        for sm in samples:
+            if len(run.samples) < 4:
+                run.samples.append(sm)
+        steps += st
+    run.extra['api_history_steps'] = steps
+    run.extra['api_files'] = len(files)
+
+
+def _replay_file(run, rel, fi, nfiles, hists, patterns):
+    steps = 0
+    files = [None] * nfiles
+    if True:
         path = os.path.join(core.REPO, rel)
         if not os.path.exists(path) or os.path.getsize(path) == 0:
             run.notes.append('fixture missing: ' + rel)
-            continue
+            return 0
         data = open(path, 'rb').read()
         cat = catalogue(data)
         truth_q = {}
@@ -471,6 +551,8 @@ def histories(run):
         def live_kind(h):
             # a pattern on a generator kind this file has nothing for is vacuous: skip it
             st = h[0]
+            if st['op'] == 'query':
+                return fresh_answer(st['name'], st['a'], st['b']) is not None
             return fresh_item(st['name'], st['a'], st['b'], 0) not in (('stop',), None)
         # patterns that differ only in arguments the generator ignores (same truth list) are one pattern
         seenp = set()
@@ -479,15 +561,16 @@ def histories(run):
             if not live_kind(p):
                 continue
             st = p[0]
-            cls = (st['name'], core.digest(repr(truth_g[(st['name'], st['a'], st['b'])])),
+            cls = (st['name'], core.digest(repr(truth_g[(st['name'], st['a'], st['b'])] if st['op'] == 'start' else
+                                                 truth_q[(st['name'], st['a'], st['b'])])),
                    tuple((o['op'], o['name'] if o['op'] != 'advance' else '', o['g'], o['w'],
                           (o['a'], o['b']) if o['op'] == 'query' else None) for o in p[1:]))
             if cls in seenp:
                 continue
-            if run.tier == 'quick' and rel in LISTS_ONLY_QUICK and (st['name'] not in ('iter_location_lists', 'iter_range_lists')
+            if run.tier == 'quick' and rel in LISTS_ONLY_QUICK and (st['op'] != 'start' or st['name'] not in ('iter_location_lists', 'iter_range_lists')
                                                                    or any(o['op'] == 'query' for o in p)):
                 continue
-            if run.tier == 'quick' and any(o['op'] == 'query' and (o['a'] != 0 or o['name'] not in QUICK_QUERIES) for o in p):
+            if run.tier == 'quick' and st['op'] == 'start' and any(o['op'] == 'query' and (o['a'] != 0 or o['name'] not in QUICK_QUERIES) for o in p):
                 continue
             # large files: the query-in-between pattern only with four representative queries
             if cat.get('info_size', 0) > 50000 and any(o['op'] == 'query' and o['name'] not in
@@ -546,5 +629,4 @@ def histories(run):
             if len(run.samples) < 4 and hi == 1 and fi == 0:
                 run.samples.append({'file': rel, 'history': h[:12]})
         run.notes.append('api %s: %d histories in %.1fs' % (os.path.basename(rel), len(mine), _t.time() - _t0))
-    run.extra['api_history_steps'] = steps
-    run.extra['api_files'] = len(files)
+    return steps
